@@ -100,10 +100,10 @@ var checks = []checkDef{
 		RealStub:    map[string]string{"real": "simpleshell.CmdShell (NewCmdShell, SetInput, Output, Go), os/exec, kernel process, pipes and scheduler", "stub": "the child (puppet following a plan), the input reader and the consumer (harness code following the plan)"},
 		MustProbe:   []string{"consumer_after_reap", "over_pipe_buffer", "exit_nonzero", "stderr_only", "zero_output", "child_reads_input_to_eof"}},
 	{ID: "C17", Engine: "fssim", Level: "exploration", QuickMS: 30000, ThoroughMS: 300000, SelftestRuns: 500,
-		Rule:        "one evaluation = one generated case: a directory tree in a simulated fs.FS (regular files, sub-directories, valid and dangling symlinks, named pipes; names with spaces, glob characters, leading dots, several extensions, editor lock/backup names), a filter table (default and user-modified, marker filters so that the first matching pattern is visible), a per-entry fault plan (Stat/Open/Read errors, short reads) and 1-3 Converter.From calls, each made twice; one run in eight materialises the tree in a real temporary directory for the FS==nil path; distinct = hash of configuration and items; non-trivial = some judged call has at least two parts, an ineligible top-level entry or several sources",
-		Assumptions: []string{"patterns are well-formed and contain no '/'; names are valid UTF-8", "valid symlinks to regular files are generated only under non-matching names (whether they count as regular files is not judged)", "dangling links under matching non-dot names, faults on the source directory itself and source directories whose own path contains glob characters are outside the statement's quantifier and not generated", "error text is read only to choose a finding's signature"},
+		Rule:        "one evaluation = one generated case: a directory tree in a simulated fs.FS (regular files, sub-directories, valid and dangling symlinks, named pipes; names with spaces, glob characters, leading dots, several extensions, editor lock/backup names), a filter table (default and user-modified, marker filters so that the first matching pattern is visible), a per-entry fault plan (Stat/Open/Read errors, short reads) and 1-3 Converter.From calls, each made twice; one run in eight materialises the tree in a real temporary directory for the FS==nil path; distinct = hash of configuration and items; non-trivial = some judged call has at least two parts, an ineligible top-level entry or several sources. One run in three edits the filter table (remove, replace, add) between the calls of one Converter, the model following; 'overlap' steps run two or three From calls on one Converter at the same time, each held inside the simulated file system at a seeded operation and released in seeded order (exactly one goroutine runs at a time), and compare each with the same call made alone; one simulated run in six gives the file system a descriptor budget (8, 12 or 16 handles open at once, EMFILE beyond) in a directory with more eligible files than that",
+		Assumptions: []string{"a conforming converter needs far fewer than 8 simultaneously open files (the unchanged code holds one per call)", "overlapping From calls on one Converter fall under 'the result is the same on every call while the files are unchanged' (the program makes such calls: Ctrl+J previews run beside Ctrl+I conversions)", "patterns are well-formed and contain no '/'; names are valid UTF-8", "valid symlinks to regular files are generated only under non-matching names (whether they count as regular files is not judged)", "dangling links under matching non-dot names, faults on the source directory itself and source directories whose own path contains glob characters are outside the statement's quantifier and not generated", "error text is read only to choose a finding's signature"},
 		RealStub:    map[string]string{"real": "shellfuncsfile.Converter (From, from, fromDirectory, fromSingleFile, fromReader, SetFilter), FromShell/FromPerl/GenFuncList where the defaults are kept, io/fs (Sub, Glob, Stat, ReadFile, ReadDir), os.DirFS in one run of eight", "stub": "the file system (in-memory fs.FS with per-entry faults), marker filters"},
-		MustProbe:   []string{}},
+		MustProbe:   []string{"filter_removed_after_use", "file_of_removed_pattern_in_called_dir", "overlap_legs_parked", "overlap_call_completed_while_another_parked", "overlap_several_parked", "fd_budget_runs", "eligible_files_exceed_fd_budget", "real_dir_runs", "dangling_dot_matching_seen"}},
 	{ID: "C19", Engine: "termsim", Level: "exploration", QuickMS: 40000, ThoroughMS: 600000, SelftestRuns: 150,
 		Rule:        "one evaluation = one simulated operator session (one synctest bubble): opshell.New on the worker's pty, Shell.Do and the line editor, with typed keys (Ctrl+O, Ctrl+I, Ctrl+J, lines), shell-output and status lines, fake-clock sleeps with extra mass at the two-second pause interval (+-0, 1 ns, 1 ms, measured from the last shell output), floods, several mute cycles; 30 % of runs are lock-order schedules in which goroutines are parked at the verif yield points before/after the shell's write lock and inside the Ctrl+O callback and released singly or all at once; distinct = hash of (configuration, action sequence); non-trivial = at least one Ctrl+O",
 		Assumptions: []string{"the mute model's clock is judged only in runs where nothing is parked; an exact tie between a shell-output arrival and the un-mute instant ends timing judgement for that run", "the un-mute announcement is recognised as a terminal write that happens by itself during a sleep and carries no harness token, never by its wording", "a deadlock verdict needs proof from two goroutine dumps 300 ms apart (nothing runnable in the bubble, two or more goroutines in sync.Mutex.Lock with opshell/goxterm frames, nothing parked by the simulator); anything else that is stuck is exit 2"},
